@@ -115,7 +115,7 @@ CHECKS = {
         engine="seqx",
         category="model_checking",
         technique="bounded-exhaustive enumeration of tree-shaped define-by-run programs and grids x seeds x failure/prune patterns x split points of the run, oracle = each reachable leaf exactly once and self-termination",
-        text="All tree-shaped define-by-run programs up to depth 2 (thorough 3) and 9 (12) leaves over 7 parameter domains (conditional branches, branches of different depth, re-used names with different ranges), all grids up to 3 parameters x 3 values incl. None/bool/nan, crossed with seeds {0,1,2}, failure patterns (i-th evaluation fails / is pruned, deterministic raise at an inner node, KeyboardInterrupt), every split of the run into 1-3 optimize calls, avoid_premature_stop, stale RUNNING trials and pre-existing/enqueued trials: the multiset of evaluated leaves equals the set of reachable leaves, each once, and the last optimize() stops by itself.",
+        text="All tree-shaped define-by-run programs up to depth 2 (thorough 3) and 9 (12) leaves over 8 parameter domains (incl. a decimal-grid float whose upper bound is not a binary fraction) (conditional branches, branches of different depth, re-used names with different ranges), all grids up to 3 parameters x 3 values incl. None/bool/nan, crossed with seeds {0,1,2}, failure patterns (i-th evaluation fails / is pruned, deterministic raise at an inner node, KeyboardInterrupt), every split of the run into 1-3 optimize calls, avoid_premature_stop, stale RUNNING trials and pre-existing/enqueued trials: the multiset of evaluated leaves equals the set of reachable leaves, each once, and the last optimize() stops by itself.",
         note="Sequential optimize on in-memory storage (journal file for a subset). A KeyboardInterrupt between two suggests of one evaluation is outside (documented BruteForce limitation).",
         design="3/C14",
     ),
